@@ -181,7 +181,8 @@ var locations = []string{"1..10", "complement(5..20)", "join(1..3,7..9)", "15", 
 var keys = []string{"misc_feature", "gene", "CDS", "promoter"}
 var quals = []string{"note=hello", "gene=x", "note=a b c", "pseudo", "product=some protein", "note=caf\\xe9", "note=caf\\xe8", "gene=\\xff", "gene=\\xc3\\x28"}
 var queries = []string{"@ATGC", "@GATTACA", "@TTTT", "@GAGTTTTATCGCTTCC", "@ACGN", "/u/guest.fasta", "@RRYY", "/u/query.fasta"}
-var formats = []string{"fasta", "genbank", "gb", "fasta", "genbank", "bogus"}
+// formats: every name seqio.ToFileType knows (also those gts cannot write and falls back on), and one it does not
+var formats = []string{"fasta", "genbank", "gb", "fasta", "genbank", "bogus", "embl", "emb", "fastq"}
 
 // posPools names, per command, the pool each positional argument is drawn
 // from; optPools the pool of each valued option. They let a history change
@@ -474,7 +475,7 @@ var numList = regexp.MustCompile(`^[0-9][0-9,\-]*$|^-[0-9][0-9,\-]*$`)
 // from (the sequence format today; a delimiter, a layout tomorrow): what is
 // derived from the name must be in the cache key like what is given by option.
 var outNames = []string{"/u/out.fasta", "/u/out.txt", "/u/nodir/out.gb", "/u/out.csv", "/u/out.tsv", "/u/out.fa", "/u/out.genbank",
-	"/u/out.gbk", "/u/out.tab", "/u/out.json", "/u/out.gff", "/u/out", "/u/out.CSV", "/u/NC_001422.1.fasta"}
+	"/u/out.gbk", "/u/out.tab", "/u/out.json", "/u/out.gff", "/u/out", "/u/out.CSV", "/u/NC_001422.1.fasta", "/u/out.embl", "/u/out.fastq", "/u/out.emb"}
 
 // litFile names the stock file whose whole content is the literal argument
 // (@...) itself.
